@@ -54,6 +54,19 @@ func genC07(t *rapid.T, maxDepth int) (*DCase, map[string]bool) {
 			ast.Return(ast.Bin("+", ast.Id("x"), ast.Num("1"))))),
 	}
 	g.Funs = []gen.Fun{{Name: "tick", Arity: 2}}
+	if rapid.Bool().Draw(t, "stoppers") {
+		for _, st := range []struct{ name, kw string }{{"tickx", "exit"}, {"tickn", "next"}} {
+			kw := ast.Exit()
+			if st.kw == "next" {
+				kw = ast.Next()
+			}
+			items = append(items, ast.Func(st.name, []string{"name", "x", "k"}, ast.Block(
+				ast.Print(ast.Str("post-"+st.kw), ast.Id("name"), ast.Id("x")),
+				ast.If(ast.Bin(">=", ast.Id("x"), ast.Id("k")), ast.Block(kw)),
+				ast.Return(ast.Bin("+", ast.Id("x"), ast.Num("1"))))))
+			g.Funs = append(g.Funs, gen.Fun{Name: st.name, Arity: 3})
+		}
+	}
 	nf := rapid.IntRange(0, 2).Draw(t, "nfuncs")
 	var funs []gen.Fun
 	for k := 0; k < nf; k++ {
@@ -77,7 +90,7 @@ func genC07(t *rapid.T, maxDepth int) (*DCase, map[string]bool) {
 }
 
 func c07Nontrivial(labels map[string]bool, d *diffResult) bool {
-	for _, l := range []string{"break-in-nested-loop", "continue-in-nested-loop", "return-from-loop", "dangling-else", "next-in-loop", "exit-in-loop", "next-in-function", "exit-in-function"} {
+	for _, l := range []string{"break-in-nested-loop", "continue-in-nested-loop", "return-from-loop", "dangling-else", "next-in-loop", "exit-in-loop", "next-in-function", "exit-in-function", "for-post-stops-run-or-rule", "for-cond-stops-run-or-rule"} {
 		if labels[l] {
 			return true
 		}
@@ -87,7 +100,7 @@ func c07Nontrivial(labels map[string]bool, d *diffResult) bool {
 
 func TestC07(t *testing.T) {
 	rec := start(t, "C07", "exploration",
-		"structured programs: nesting (depth <= 4, 6 thorough) of if / if-else / else-if chains / dangling else / while / three-clause for (post-expression traced through a function) / for-in over arrays, objects and strings (empty and multi-byte included) / blocks, with break, continue, return (from loops and ifs), next and exit at arbitrary positions, in pattern rules and in functions; conditions and bounds read a generated document; every statement position prints a trace line with the loop variables. Expected trace from refjq (DESIGN.md 4.4). Non-trivial: break/continue in a nested loop, return from inside a loop, next/exit inside a loop or function, a dangling else, for-in over an object with >= 2 keys or over a multi-byte string. distinct = distinct (program, input).")
+		"structured programs: nesting (depth <= 4, 6 thorough) of if / if-else / else-if chains / dangling else / while / three-clause for (post-expression traced through a function; post-expression or condition calling a function that executes next or exit at a given step) / for-in over arrays, objects and strings (empty and multi-byte included) / blocks, with break, continue, return (from loops and ifs), next and exit at arbitrary positions, in pattern rules and in functions; conditions and bounds read a generated document; every statement position prints a trace line with the loop variables. Expected trace from refjq (DESIGN.md 4.4). Non-trivial: break/continue in a nested loop, return from inside a loop, next/exit inside a loop or function, a dangling else, for-in over an object with >= 2 keys or over a multi-byte string. distinct = distinct (program, input).")
 	defer rec.Finish()
 	rec.Assume("refjq's statement semantics are the documented ones (DESIGN.md 4.4); object key order is accepted in any order, each key exactly once")
 	rec.Replayer("trace", replayDiff(false))
